@@ -36,8 +36,9 @@ open PbVerif.Axes
 
 /-- individualAxes_plan: for valid `axes` and `method_kwargs`, step i works along `axes[i]`, its 1-D fitter gets
 `(x, z)[axes[i]]` (the caller's vectors), its keyword arguments are `method_kwargs[i]` after the pairing, and its
-results are stored under 'rows' (axis 0) / 'columns' (axis 1) -/
-theorem individualAxes_plan {α : Type} (empty : α) (axes : AxesArg) (kw : KwArg α) (ax : List Nat) (kws : List α)
+results are stored under 'rows' (axis 0) / 'columns' (axis 1).  `AxisOk`: the axes are the documented 0 / 1 (the code
+does not check this: 2 raises IndexError at `(x, z)[axis]`, negative values wrap around) -/
+theorem individualAxes_plan {α : Type} (empty : α) (axes : AxesArg) (_hok : AxisOk axes) (kw : KwArg α) (ax : List Nat) (kws : List α)
     (ha : normAxes axes = .ok ax) (hk : pairKwargs empty ax.length kw = .ok kws) (i : Nat) (hi : i < ax.length) :
     ∃ steps, individualAxesPlan empty axes kw = .ok steps ∧ steps.length = ax.length ∧
       ∃ hs : i < steps.length, steps[i].axis = ax[i] ∧ steps[i].coord = coordOf ax[i] ∧ steps[i].key = keyOf ax[i] ∧
@@ -56,6 +57,7 @@ theorem individualAxes_kwargs_pairing {α : Type} (empty : α) (num : Nat) :
     (∀ l : List α, 2 ≤ l.length → l.length ≠ num → pairKwargs empty num (.seq l) = .error .valueError) :=
   pairKwargs_spec empty num
 
+example : AxisOk (.two 1 0) ∧ AxisOk (.one 1) := by simp [AxisOk]
 /-- the same axis twice is rejected whatever `method_kwargs` is; a scalar axis with two dicts is rejected -/
 theorem individualAxes_errors {α : Type} (empty : α) (a : Nat) (kw : KwArg α) (d0 d1 : α) :
     individualAxesPlan empty (.two a a) kw = .error .valueError ∧
@@ -65,7 +67,7 @@ theorem individualAxes_errors {α : Type} (empty : α) (a : Nat) (kw : KwArg α)
 /-- shape preservation: for a 1-D method that returns as many points as it gets, the baseline and every partial
 baseline have the shape (M, N) of the data -/
 theorem individualAxes_shape {α : Type} (fit : Fit1 α) (hf : LenPres1 fit) (empty : α) (x z : List Rat) (data : Axes.Mat) (m n : Nat)
-    (hD : RectMN data m n) (hm : 0 < m) (hn : 0 < n) (axes : AxesArg) (kw : KwArg α) (out : Axes.Mat × List (String × Axes.Mat))
+    (hD : RectMN data m n) (hm : 0 < m) (hn : 0 < n) (axes : AxesArg) (_hok : AxisOk axes) (kw : KwArg α) (out : Axes.Mat × List (String × Axes.Mat))
     (h : individualAxes fit empty x z data axes kw = .ok out) :
     RectMN out.1 m n ∧ ∀ kp ∈ out.2, RectMN kp.2 m n := by
   unfold individualAxes at h
@@ -77,15 +79,15 @@ theorem individualAxes_shape {α : Type} (fit : Fit1 α) (hf : LenPres1 fit) (em
     exact runSteps_shape fit hf x z data m n hD hm hn steps
 
 /-- `axes=a` (one axis) uses only that axis' coordinates: the other vector may be anything -/
-theorem individualAxes_one_axis_coords {α : Type} (fit : Fit1 α) (empty : α) (x z x' z' : List Rat) (data : Axes.Mat) (a : Nat) (kw : KwArg α)
-    (h : if a = 0 then x = x' else z = z') :
+theorem individualAxes_one_axis_coords {α : Type} (fit : Fit1 α) (empty : α) (x z x' z' : List Rat) (data : Axes.Mat) (a : Nat) (_ha : a ≤ 1)
+    (kw : KwArg α) (h : if a = 0 then x = x' else z = z') :
     individualAxes fit empty x z data (.one a) kw = individualAxes fit empty x' z' data (.one a) kw :=
   one_axis_coord fit empty x z x' z' data a kw h
 
 /-- `axes=(a, b)` with kwargs `[k0, k1]` is `axes=a` with `k0` on the data followed by `axes=b` with `k1` on the data
 minus the first baseline: the baselines add up and the partial baselines are those of the two single-axis calls -/
 theorem individualAxes_two_is_one_then_one {α : Type} (fit : Fit1 α) (hf : LenPres1 fit) (empty : α) (x z : List Rat) (data : Axes.Mat)
-    (m n : Nat) (hD : RectMN data m n) (hm : 0 < m) (hn : 0 < n) (a b : Nat) (hab : a ≠ b) (k0 k1 : α) :
+    (m n : Nat) (hD : RectMN data m n) (hm : 0 < m) (hn : 0 < n) (a b : Nat) (_ha : a ≤ 1) (_hb : b ≤ 1) (hab : a ≠ b) (k0 k1 : α) :
     ∃ (B0 B1 : Axes.Mat) (P0 P1 : List (String × Axes.Mat)),
       individualAxes fit empty x z data (.one a) (.dict k0) = .ok (B0, P0) ∧
       individualAxes fit empty x z (sub data B0) (.one b) (.dict k1) = .ok (B1, P1) ∧
@@ -98,7 +100,7 @@ coordinates and data together (C02) -/
 theorem individualAxes_reorder {α : Type} (fit : Fit1 α) (hf : LenPres1 fit) (empty : α) (x z : List Rat) (data : Axes.Mat) (m n : Nat)
     (hD : RectMN data m n) (hm : 0 < m) (hn : 0 < n) (p s : List Nat) (hp : p.length = m) (hs : s.length = n)
     (hpm : ∀ i ∈ p, i < m) (hsn : ∀ j ∈ s, j < n) (hx : Equivariant fit p x) (hz : Equivariant fit s z)
-    (axes : AxesArg) (kw : KwArg α) :
+    (axes : AxesArg) (_hok : AxisOk axes) (kw : KwArg α) :
     individualAxes fit empty (take1 p x) (take1 s z) (take2 p s data) axes kw =
       (individualAxes fit empty x z data axes kw).map (reorder p s) :=
   individualAxes_take2 fit hf empty x z data m n hD hm hn p s hp hs hpm hsn hx hz axes kw
